@@ -43,6 +43,8 @@ Definition init (t : Z) : st :=
 Inductive label :=
 | Enter (dl : Z)              (* ClientTimeoutSink.AsyncProcessRequest with this absolute deadline *)
 | Tick (t : Z)
+| OuterTimeout                (* DispatchMethodCall's own timer: the call timed out while waiting for Open() and is
+                                 never dispatched *)
 | Fire                        (* the timer action (_TimeoutHelper) runs: requires now >= deadline; sets the event *)
 | TimedOut                    (* ... and its TimeoutError reaches the caller (unless something else completed the call
                                  re-entrantly while the message travelled up the sink stack) *)
@@ -79,6 +81,13 @@ Definition step (s : st) (l : label) : option st :=
       | _ => None
       end
   | Tick t => if t <? now s then None else Some (upd_now s t)
+  | OuterTimeout =>
+      match p s with
+      | NotEntered =>
+          Some {| now := now s; deadline := now s; p := Gone; evt := false; handed := true; completed := true;
+                  subscribed := false; tagkey := false; notif := false; conn_open := false; owed := None; writes := []; discards := [] |}
+      | _ => None
+      end
   | Fire =>
       if not_entered (p s) || (now s <? deadline s) || evt s || completed s then None else
       (* evt.Set(True) first (spawns the notifier greenlet that will run the subscribed timeout_proc),
